@@ -113,6 +113,36 @@ theorem pipeline_stagewise (i : PipeIn) (s : Stages) (hs : stages i = some s) (h
   exact ⟨mono_link (c := { P := i.prog, P' := s.mono, pairs := s.pairs }) hm,
     by rw [hlift]; exact lift_link s.env s.mono hl, by rw [hanf]; exact anf_link s.lift s.gensym ha⟩
 
+/-- the fragment of `pipeline_preserves_partial`: the conjuncts of the lift and ANF links only -/
+def InLiftAnfFragment (i : PipeIn) : Prop := inLiftAnfFragment i = true
+
+instance (i : PipeIn) : Decidable (InLiftAnfFragment i) := by
+  unfold InLiftAnfFragment; infer_instance
+
+/-- **pipeline_preserves_partial.**  When the Core → Mono link is outside `fragMono` — in practice:
+    the program uses a trait-bounded generic function, so its Core contains `ETraitCall`, whose
+    `Sem` meaning (dispatch on the runtime value) agrees with what `mono` emits (a direct call
+    chosen by the static type) only for well-typed runs, and no theorem here gives type soundness
+    of Core w.r.t. `Sem` (C07's `traitcall_commutes` takes `valKey v = tyKey τ` as a hypothesis) —
+    the chain still holds FROM THE MONO PROGRAM ON: every definite run of `main` in the
+    monomorphised program the model computes is reproduced by the ANF program.  The first link is
+    then covered by the stage-wise validation of `./check C01` / `./check C07` only.
+
+    Full statement, not proved: `pipeline_preserves` without `fragMono`, i.e. with the typing
+    invariant `∀ ETraitCall Tr::m(recv,…) evaluated in a run, valKey (value of recv) = tyKey (type of recv)`
+    discharged from well-typedness of the Core program. -/
+theorem pipeline_preserves_partial (i : PipeIn) (s : Stages) (hs : stages i = some s) (hfrag : InLiftAnfFragment i)
+    (fuel : Nat) (eager : Bool) (hdef : Definite (run fuel s.mono "main" eager)) :
+    ∃ m0, ∀ m, m0 ≤ m → run m s.anf "main" eager = run fuel s.mono "main" eager := by
+  unfold InLiftAnfFragment inLiftAnfFragment at hfrag
+  rw [hs] at hfrag
+  simp only [Bool.and_eq_true] at hfrag
+  obtain ⟨_, _, hlift, hanf, _⟩ := stages_spec hs
+  have l2 : Reproduces s.mono s.lift := by rw [hlift]; exact lift_link s.env s.mono hfrag.1
+  have l3 : Reproduces s.lift s.anf := by
+    rw [hanf]; exact anf_link s.lift s.gensym (by unfold C09.FileInAnfFragment; rw [← fragAnf_iff]; exact hfrag.2)
+  exact (l2.trans l3) fuel eager hdef
+
 /-- nothing invented: a definite run of the ANF program and a definite run of the Core program
     have the same outcome, whatever fuel each was given (`Sem` is deterministic and fuel-monotone;
     a Core run that never becomes definite — divergence, or ill-typed IR — is not constrained) -/
